@@ -2113,10 +2113,13 @@ def disk_io_counters(perdisk=False, nowrap=True):
     """
     kwargs = dict(perdisk=perdisk) if LINUX else {}
     rawdict = _psplatform.disk_io_counters(**kwargs)
+    if nowrap:
+        # Also when there are no disks, so that the disks which went
+        # away are forgotten instead of being mistaken for counters
+        # which wrapped when they come back.
+        rawdict = _wrap_numbers(rawdict, 'psutil.disk_io_counters')
     if not rawdict:
         return {} if perdisk else None
-    if nowrap:
-        rawdict = _wrap_numbers(rawdict, 'psutil.disk_io_counters')
     nt = getattr(_psplatform, "sdiskio", _common.sdiskio)
     if perdisk:
         for disk, fields in rawdict.items():
@@ -2164,10 +2167,13 @@ def net_io_counters(pernic=False, nowrap=True):
     cache.
     """
     rawdict = _psplatform.net_io_counters()
+    if nowrap:
+        # Also when there are no NICs, so that the NICs which went away
+        # are forgotten instead of being mistaken for counters which
+        # wrapped when they come back.
+        rawdict = _wrap_numbers(rawdict, 'psutil.net_io_counters')
     if not rawdict:
         return {} if pernic else None
-    if nowrap:
-        rawdict = _wrap_numbers(rawdict, 'psutil.net_io_counters')
     if pernic:
         for nic, fields in rawdict.items():
             rawdict[nic] = _common.snetio(*fields)
